@@ -43,13 +43,31 @@ Proof.
   exists si, bs, sj, ei, be, ej. repeat (split; [assumption|]). unfold splice. rewrite Est, Een. reflexivity.
 Qed.
 
-Lemma splice__refuses LF s tokens st en t hb hi : In t tokens -> hnd s t = Some (hb, hi) ->
-  pair_le st (bidx s hb, hi) && pair_lt (bidx s hb, hi) en = false ->
+(* all three refusals of _splice return the store as it was *)
+Lemma splice__refuses LF s tokens st en t sid hb hi : In t tokens -> raw s t = Some (sid, hb, hi) ->
+  Pos.eqb sid (s_id s) && (pair_le st (bidx s hb, hi) && pair_lt (bidx s hb, hi) en) = false ->
   splice_ LF s tokens st en = (s, Err ValueError).
 Proof.
   intros Ht Hh Hg. unfold splice_. destruct st as [a b], en as [c d].
+  destruct (pair_lt (c, d) (a, b)); [reflexivity|]. destruct (has_dup tokens); [reflexivity|].
   match goal with |- context [existsb ?f tokens] => assert (existsb f tokens = true) as -> end; [|reflexivity].
-  apply existsb_exists. exists t. split; [exact Ht|]. fold (hnd s t). rewrite Hh. fold (bidx s hb). rewrite Hg. reflexivity.
+  apply existsb_exists. exists t. split; [exact Ht|]. fold (raw s t). rewrite Hh. fold (bidx s hb). rewrite Hg. reflexivity.
+Qed.
+
+Lemma splice__refuses_dup LF s tokens st en : ~ NoDup tokens -> splice_ LF s tokens st en = (s, Err ValueError).
+Proof.
+  intro H. unfold splice_. destruct st as [a b], en as [c d].
+  destruct (pair_lt (c, d) (a, b)); [reflexivity|]. rewrite (has_dup_true tokens H). reflexivity.
+Qed.
+
+Lemma splice__refuses_reversed LF s tokens st en : pair_lt en st = true -> splice_ LF s tokens st en = (s, Err ValueError).
+Proof. intro H. unfold splice_. destruct st as [a b], en as [c d]. rewrite H. reflexivity. Qed.
+
+(* a token of another store among the inserted tokens *)
+Lemma splice__refuses_foreign LF s tokens st en t : In t tokens -> foreign s t -> splice_ LF s tokens st en = (s, Err ValueError).
+Proof.
+  intros Ht (sid & b & j & R & N). apply (splice__refuses LF s tokens st en t sid b j Ht R).
+  destruct (Pos.eqb_spec sid (s_id s)); [contradiction|reflexivity].
 Qed.
 
 (* block-level: a store token outside [start, end) among the inserted tokens is refused, store unchanged *)
@@ -62,8 +80,8 @@ Lemma splice__refuses_pos LF s tokens si bs sj ei be ej t k : Inv s ->
 Proof.
   intros [I _] Hbs Lsj Hbe Lej F Ht Hk Hout. subst F. cbv beta in Hout.
   destruct (locate_inv s k t I Hk) as (i & b & j & Hb & Htj & Ek & Hh & Hi).
-  pose proof (nth_error_in_len _ _ _ Htj) as Lj.
-  apply (splice__refuses LF s tokens _ _ t b (Z.of_nat j) Ht Hh). rewrite Hi. unfold pair_le, pair_lt. cbn [fst snd].
+  pose proof (nth_error_in_len _ _ _ Htj) as Lj. apply hnd_raw in Hh.
+  apply (splice__refuses LF s tokens _ _ t (s_id s) b (Z.of_nat j) Ht Hh). rewrite Pos.eqb_refl, Hi. unfold pair_le, pair_lt. cbn [fst snd andb].
   destruct Hout as [Lo|Lo].
   - assert (~ ((si < i)%nat \/ (si = i /\ (sj <= j)%nat))) as N.
     { intros [G|[-> G]]; [|lia].
@@ -89,53 +107,132 @@ Proof.
   apply (splice__refuses_pos LF s tokens si bs sj ei be ej t k II Hbs Lsj Hbe Lej Ht Hk). cbv zeta. lia.
 Qed.
 
-Lemma invalid_token_exists (l tokens : list positive) p q :
-  ~ (forall t, In t tokens -> ~ In t l \/ In t (firstn (q - p) (skipn p l))) ->
-  exists t, In t tokens /\ In t l /\ ~ In t (firstn (q - p) (skipn p l)).
+Lemma invalid_token_exists s (tokens : list positive) p q :
+  ~ (forall t, In t tokens -> free s t \/ In t (firstn (q - p) (skipn p (abs s)))) ->
+  exists t, In t tokens /\ ~ free s t /\ ~ In t (firstn (q - p) (skipn p (abs s))).
 Proof.
   induction tokens as [|x r IH]; intro H; [exfalso; apply H; intros ? []|].
-  destruct (in_dec Pos.eq_dec x l) as [Hl|Hl].
-  - destruct (in_dec Pos.eq_dec x (firstn (q - p) (skipn p l))) as [Hr|Hr].
+  assert ({free s x} + {~ free s x}) as [Hl|Hl] by (unfold free; destruct (raw s x); [right; discriminate|left; reflexivity]).
+  - destruct IH as (t & Ht & H1 & H2).
+    + intro Hall. apply H. intros t [<-|Ht]; [left; exact Hl|apply Hall; exact Ht].
+    + exists t. split; [right; exact Ht|auto].
+  - destruct (in_dec Pos.eq_dec x (firstn (q - p) (skipn p (abs s)))) as [Hr|Hr].
     + destruct IH as (t & Ht & H1 & H2).
       * intro Hall. apply H. intros t [<-|Ht]; [right; exact Hr|apply Hall; exact Ht].
       * exists t. split; [right; exact Ht|auto].
     + exists x. split; [left; reflexivity|auto].
-  - destruct IH as (t & Ht & H1 & H2).
-    + intro Hall. apply H. intros t [<-|Ht]; [left; exact Hl|apply Hall; exact Ht].
-    + exists t. split; [right; exact Ht|auto].
 Qed.
 
-(* the full refusal statement for duplicate-free token lists: arguments that break the contract are
-   refused with ValueError and the store is unchanged *)
+(* the full contract: a call whose tokens are not valid (listed twice, or a token that is neither free nor
+   inside the removed range: elsewhere in this store, or in another store) is refused, store unchanged *)
 Theorem splice_refusals LF s tokens ref del_end p q :
   Inv s -> ref_pos (abs s) ref p -> end_pos (abs s) del_end p q ->
-  NoDup tokens -> ~ valid_tokens (abs s) tokens p q ->
+  ~ valid_tokens s tokens p q ->
   splice LF s tokens ref del_end = (s, Err ValueError).
 Proof.
-  intros II Hp Hq ND Hnv.
-  destruct (invalid_token_exists (abs s) tokens p q) as (t & Ht & Hl & Hr).
-  { intro Hall. apply Hnv. split; assumption. }
-  apply In_nth_error in Hl as [k Hk].
-  apply (splice_refuses LF s tokens ref del_end p q t k II Hp Hq Ht Hk).
-  destruct (Nat.lt_ge_cases k p) as [?|Lp]; [left; assumption|]. destruct (Nat.lt_ge_cases k q) as [Lq|?]; [|right; assumption].
-  exfalso. apply Hr. apply (nth_error_In _ (k - p)).
-  rewrite nth_error_firstn_lt, nth_error_skipn_add by lia. replace (p + (k - p))%nat with k by lia. exact Hk.
+  intros II Hp Hq Hnv.
+  destruct (splice_unfold LF s tokens ref del_end p q II Hp Hq)
+    as (si & bs & sj & ei & be & ej & Hbs & Lsj & Ep & Hbe & Lej & Eq & E). rewrite E.
+  destruct (has_dup tokens) eqn:Ed.
+  - apply splice__refuses_dup. intro ND. rewrite (has_dup_false tokens ND) in Ed. discriminate.
+  - assert (NoDup tokens) as ND.
+    { clear -Ed. induction tokens as [|x r IH]; [constructor|]. cbn [has_dup] in Ed. apply orb_false_elim in Ed as [E1 E2].
+      constructor; [|apply IH; exact E2]. intro Hin.
+      assert (existsb (Pos.eqb x) r = true) as C; [|congruence]. apply existsb_exists. exists x. split; [exact Hin|apply Pos.eqb_refl]. }
+    destruct (invalid_token_exists s tokens p q) as (t & Ht & Hl & Hr).
+    { intro Hall. apply Hnv. split; assumption. }
+    unfold free in Hl. destruct (raw s t) as [[[sid b] j]|] eqn:Er; [|contradiction].
+    destruct (Pos.eqb_spec sid (s_id s)) as [->|N].
+    + assert (In t (abs s)) as Hin.
+      { destruct II as [I _]. apply (g_hin _ _ I). rewrite (hnd_of_raw s t b j Er). discriminate. }
+      apply In_nth_error in Hin as [k Hk].
+      apply (splice__refuses_pos LF s tokens si bs sj ei be ej t k II Hbs Lsj Hbe Lej Ht Hk). cbv zeta. rewrite <- Ep, <- Eq.
+      destruct (Nat.lt_ge_cases k p) as [?|Lp]; [left; assumption|]. destruct (Nat.lt_ge_cases k q) as [Lq|?]; [|right; assumption].
+      exfalso. apply Hr. apply (nth_error_In _ (k - p)).
+      rewrite nth_error_firstn_lt, nth_error_skipn_add by lia. replace (p + (k - p))%nat with k by lia. exact Hk.
+    + apply (splice__refuses_foreign LF s tokens _ _ t Ht). exists sid, b, j. auto.
 Qed.
 
-(* insert_after never takes a token that is in the store *)
+(* a reference token that is free or belongs to another store: every operation and every observer raises
+   ValueError and the store is unchanged *)
+Theorem bad_reference_refused LF s r ts d0 : hnd s r = None ->
+  splice LF s ts (Some r) d0 = (s, Err ValueError) /\ insert_before LF s (Some r) ts = (s, Err ValueError) /\
+  insert_after LF s (Some r) ts = (s, Err ValueError) /\ remove LF s r d0 = (s, Err ValueError) /\
+  (forall x, replace LF s r x = (s, Err ValueError)) /\
+  get_index s r = Err ValueError /\ get_position s r = Err ValueError /\
+  get_prev s r = Err ValueError /\ get_next s r = Err ValueError /\
+  (forall u, iter_range s r u = Err ValueError /\ iter_range s u r = Err ValueError) /\
+  (forall z, update s r z = (s, Err ValueError)).
+Proof.
+  intro H. unfold insert_before, insert_after, remove, replace, splice, get_index, get_position, get_prev, get_next, iter_range, update.
+  rewrite !check_handle_hnd, H. do 9 (split; [reflexivity|]). split; [|reflexivity].
+  intro u. split; [reflexivity|]. rewrite check_handle_hnd. destruct (hnd s u) as [[? ?]|]; reflexivity.
+Qed.
+
+(* ... and a bad end-of-range token *)
+Theorem bad_end_refused LF s r e ts : hnd s e = None -> splice LF s ts r (Some e) = (s, Err ValueError).
+Proof.
+  intro H. unfold splice. destruct r as [r0|].
+  - rewrite check_handle_hnd. destruct (hnd s r0) as [[? ?]|]; [|reflexivity]. rewrite check_handle_hnd, H. reflexivity.
+  - rewrite check_handle_hnd, H. reflexivity.
+Qed.
+
+(* a reversed range (del_end strictly before the predecessor of ref) is refused *)
+Theorem splice_reversed_refused LF s tokens r e p kd :
+  Inv s -> nth_error (abs s) p = Some r -> nth_error (abs s) kd = Some e -> (kd + 1 < p)%nat ->
+  splice LF s tokens (Some r) (Some e) = (s, Err ValueError).
+Proof.
+  intros [I _] Hr He Lt.
+  destruct (locate_inv s p r I Hr) as (i & b & j & Hb & Htj & Ek & Hh & Hi).
+  destruct (locate_inv s kd e I He) as (i' & b' & j' & Hb' & Htj' & Ek' & Hh' & Hi').
+  pose proof (nth_error_in_len _ _ _ Htj) as Lj. pose proof (nth_error_in_len _ _ _ Htj') as Lj'.
+  unfold splice. rewrite !check_handle_hnd, Hh, Hh'. fold (bidx s b) (bidx s b'). rewrite Hi, Hi'.
+  apply splice__refuses_reversed. unfold pair_lt. cbn [fst snd].
+  assert (~ (i < i')%nat) as N.
+  { intro G. pose proof (flat_firstn_mono (toks s) (s_blocks s) (S i) i' G) as M.
+    rewrite (flat_firstn_S _ _ i b Hb), app_length in M. lia. }
+  destruct (Nat.lt_trichotomy i' i) as [?|[->|?]]; [lia|lia|contradiction].
+Qed.
+
+(* insert_after never takes a token that is in this store or in another one *)
 Theorem insert_after_refuses LF s tokens ref p t :
   Inv s ->
   match ref with None => p = 0%nat | Some r0 => (1 <= p)%nat /\ nth_error (abs s) (p - 1) = Some r0 end ->
-  In t tokens -> In t (abs s) ->
+  In t tokens -> ~ free s t ->
   insert_after LF s ref tokens = (s, Err ValueError).
 Proof.
-  intros II Hp Ht Hl. pose proof II as [I _]. apply In_nth_error in Hl as [k Hk]. unfold insert_after.
-  destruct ref as [r0|].
-  - destruct Hp as [L1 Hr]. destruct (locate_inv s (p - 1) r0 I Hr) as (i & b & j & Hb & Htj & Ek & Hh & Hi).
-    pose proof (nth_error_in_len _ _ _ Htj) as Lj.
-    rewrite check_handle_hnd, Hh. fold (bidx s b). rewrite Hi.
-    replace (Z.of_nat j + 1) with (Z.of_nat (S j)) by lia.
-    apply (splice__refuses_pos LF s tokens i b (S j) i b (S j) t k II Hb ltac:(lia) Hb ltac:(lia) Ht Hk). cbv zeta. lia.
-  - destruct (first_block s I) as [b0 Hb0].
-    apply (splice__refuses_pos LF s tokens 0 b0 0 0 b0 0 t k II Hb0 ltac:(lia) Hb0 ltac:(lia) Ht Hk). cbv zeta. lia.
+  intros II Hp Ht Hl. pose proof II as [I _]. unfold free in Hl. destruct (raw s t) as [[[sid b0] j0]|] eqn:Er; [|contradiction].
+  unfold insert_after.
+  assert (forall st, (Pos.eqb sid (s_id s) = false -> splice_ LF s tokens st st = (s, Err ValueError))) as Hfor.
+  { intros st E. apply (splice__refuses LF s tokens st st t sid b0 j0 Ht Er). rewrite E. reflexivity. }
+  destruct (Pos.eqb_spec sid (s_id s)) as [->|N].
+  - assert (In t (abs s)) as Hin by (apply (g_hin _ _ I); rewrite (hnd_of_raw s t b0 j0 Er); discriminate).
+    apply In_nth_error in Hin as [k Hk].
+    destruct ref as [r0|].
+    + destruct Hp as [L1 Hr]. destruct (locate_inv s (p - 1) r0 I Hr) as (i & b & j & Hb & Htj & Ek & Hh & Hi).
+      pose proof (nth_error_in_len _ _ _ Htj) as Lj.
+      rewrite check_handle_hnd, Hh. fold (bidx s b). rewrite Hi.
+      replace (Z.of_nat j + 1) with (Z.of_nat (S j)) by lia.
+      apply (splice__refuses_pos LF s tokens i b (S j) i b (S j) t k II Hb ltac:(lia) Hb ltac:(lia) Ht Hk). cbv zeta. lia.
+    + destruct (first_block s I) as [b1 Hb1].
+      apply (splice__refuses_pos LF s tokens 0 b1 0 0 b1 0 t k II Hb1 ltac:(lia) Hb1 ltac:(lia) Ht Hk). cbv zeta. lia.
+  - destruct ref as [r0|]; [|apply Hfor; reflexivity].
+    rewrite check_handle_hnd. destruct (hnd s r0) as [[hb hi]|]; [apply Hfor; reflexivity|reflexivity].
+Qed.
+
+(* the frame between stores: under any valid splice, a token of another store keeps its handle and text *)
+Theorem foreign_untouched LF s tokens ref del_end p q s' r t :
+  1 <= LF -> Inv s -> ref_pos (abs s) ref p -> end_pos (abs s) del_end p q -> valid_tokens s tokens p q ->
+  splice LF s tokens ref del_end = (s', r) -> foreign s t ->
+  raw s' t = raw s t /\ txt s' t = txt s t /\ foreign s' t.
+Proof.
+  intros HLF II Hp Hq Hv H Hf.
+  destruct (splice_spec LF s tokens ref del_end p q s' r HLF II Hp Hq Hv H) as (_ & _ & _ & Ht & Eid & F1 & _).
+  pose proof (foreign_not_in s t II Hf) as Hn.
+  assert (~ In t tokens) as Hnt.
+  { intro Hin. destruct Hv as [_ Hv]. destruct (Hv t Hin) as [Hfr|Hr].
+    - destruct Hf as (? & ? & ? & R & _). unfold free in Hfr. congruence.
+    - apply Hn. apply in_firstn, in_skipn in Hr. exact Hr. }
+  split; [apply F1; assumption|]. split; [apply Ht|].
+  destruct Hf as (sid & b & j & R & N). exists sid, b, j. rewrite (F1 t Hn Hnt), Eid. auto.
 Qed.
